@@ -30,6 +30,8 @@ PROPS = {
     "C15": dict(streams=["c15"], items=["keycodes", "layoutkeys", "charclasses", "rankcmp"]),
     "C16": dict(streams=["c16"], items=["keycodes", "layoutkeys", "charclasses", "rankcmp", "okkhor"]),
     "C17": dict(streams=["c17"], items=["keycodes", "layoutkeys", "charclasses", "rankcmp", "okkhor"]),
+    "C18": dict(streams=["c18"], items=["keycodes", "layoutkeys", "charclasses", "rankcmp", "okkhor"]),
+    "C19": dict(streams=["c19"], items=["keycodes", "layoutkeys", "charclasses", "rankcmp", "okkhor"], prebuild="ffi/build.sh"),
     "C12": dict(streams=["c12"], items=["keycodes", "layoutkeys", "charclasses"]),
     "C13": dict(streams=["c13"], items=["keycodes", "layoutkeys", "charclasses"]),
     "C14": dict(streams=["c14"], items=["keycodes", "layoutkeys", "charclasses"]),
@@ -183,6 +185,11 @@ def main():
     with Lock("cargo"):
         rc, out = sh(["cargo", "build", "--release", "--offline"], cwd=HARNESS, timeout=3000)
     harness_ok = rc == 0
+    if harness_ok and cfg.get("prebuild"):
+        with Lock("cargo"):
+            rc2, out2 = sh(cfg["prebuild"], cwd=VERIF, timeout=3000)
+        if rc2 != 0:
+            broken.append("prebuild failed: " + out2[-400:])
     if not harness_ok:
         broken.append("harness-build: " + "\n".join([l for l in out.splitlines() if l.startswith("error")][:5]))
         log.append(out[-2000:])
